@@ -441,8 +441,21 @@ func (ex *Exec) fltBinop(op token.Token, a, b Flt) Value {
 		return ex.fltOf(ts.RMul(ta, tb), bits)
 	case token.QUO:
 		if !tb.isConst {
-			ex.sideConds++
-			ex.assume(ts.Not(ts.Eq(tb, ts.RealC(ratZero))))
+			isZero := ts.Eq(tb, ts.RealC(ratZero))
+			if ex.ZeroDen > 0 && ex.spec == 0 && len(ex.guards) == 0 {
+				// zero-denominator exploration: a bounded number of executed divisions may
+				// have a zero denominator on a path; the quotient is then the unspecified
+				// (NaN / Inf natively) term (/ a 0) and value assertions over it are exempt,
+				// while lengths, counts and termination are still checked
+				if ex.decide(isZero) {
+					ex.ZeroDen--
+					ex.zeroDenUsed++
+					return ex.divZero(a)
+				}
+			} else {
+				ex.sideConds++
+				ex.assume(ts.Not(isZero))
+			}
 		} else if tb.rat.Sign() == 0 {
 			return ex.divZero(a)
 		}
